@@ -675,7 +675,6 @@ func spawnShards[T any](id, tier string, njobs int) ([]T, error) {
 	return results, nil
 }
 
-
 func init() {
 	Registry["C06"] = C06
 	Replayers["C06"] = func(raw json.RawMessage) int {
